@@ -60,7 +60,8 @@ OUTSIDE = ["negative supply", "IEEE rounding", "more than 4 thresholds/slaves"]
 
 
 def BOUNDS(tier):
-    return {"thresholds": "0..3" if tier == "quick" else "0..4", "steps": 1 if tier == "quick" else 2}
+    return {"thresholds": "0..3" if tier == "quick" else "0..4",
+            "steps": "1 (2 for <= 2 slaves / <= 1 rule)" if tier == "quick" else "2 (3 for <= 2 slaves)"}
 
 
 def _pool(ctx, sfx=""):
@@ -347,8 +348,11 @@ def tasks(tier, seed):
     out.append(Task(MOD, "relative_ctor"))
     for k in range(0, kmax + 1):
         for via in ("ctor", "unbound"):
-            out.append(Task(MOD, "stepwise", dict(k=k, via=via, steps=1 if k >= 3 else steps), weight=4 ** k))
-        out.append(Task(MOD, "switch", dict(k=k, steps=1 if k >= 3 else steps), weight=3 ** k))
+            out.append(Task(MOD, "stepwise", dict(k=k, via=via, steps=(2 if k <= 1 else 1) if tier == "quick" else (2 if k <= 2 else 1)),
+                            weight=4 ** k, shards=1 if k < 4 else 4))
+        # selection must not depend on history: several steps with a fresh pool state each
+        out.append(Task(MOD, "switch", dict(k=k, steps=(2 if k <= 2 else 1) if tier == "quick" else (3 if k <= 2 else 2)),
+                        weight=3 ** k * 4, shards=1 if k < 3 else 4))
     return out
 
 
